@@ -1,12 +1,14 @@
 (* Model/UTimeOps.v — executable model of the in-place operations, slicing and copying of
    nitime.timeseries.UniformTime, and the abstract (t0, Δ, n) machine they are meant to refine.
-   (nitime/timeseries.py, after commits ac47f31/a2201c3/c4c4884/9a1272e:
+   (nitime/timeseries.py, after commits ac47f31/a2201c3/c4c4884/9a1272e/c3a0f82:
       __array_finalize__ 705-725 (attribute inheritance of views/slices/copies),
       __getitem__ 741-750 (slices), __setitem__ 752-755, _convert_and_check_uniformity 759-780,
       _follow_shift 782-796, __iadd__ 798-802, __isub__ 804-808, __imul__ 810-816,
       __idiv__ 818-822, index_at 826-846.)
    Definitions only; proofs are in Proofs/UTimeOpsP.v.
 
+   Operands are VALUES in the model (c3a0f82: the code takes a private copy of a time-object operand, so an
+   operand that is the axis itself, a view or an element of it behaves like any other value).
    Modelled as written: the order of the statements of each operator (so the state left behind
    by a failing operation is the one the code leaves), conversion of bare operands by the unit
    factor, the uniformity check on np.diff, numpy's in-place shape rule (operand length must be
